@@ -16,6 +16,7 @@ import (
 var zz09e struct {
 	bits []asn1.BitString
 	bc   []basicConstraints
+	nc   []nameConstraints
 }
 
 func zzStubAsn1Marshal09e(v interface{}) ([]byte, error) {
@@ -26,6 +27,9 @@ func zzStubAsn1Marshal09e(v interface{}) ([]byte, error) {
 	case basicConstraints:
 		zz09e.bc = append(zz09e.bc, t)
 		return []byte{0x30, byte(len(zz09e.bc) - 1)}, nil
+	case nameConstraints:
+		zz09e.nc = append(zz09e.nc, nameConstraints{Permitted: append([]generalSubtree{}, t.Permitted...)})
+		return []byte{0x31, byte(len(zz09e.nc) - 1)}, nil
 	}
 	return nil, errors.New("zz: asn1.Marshal of an unexpected type")
 }
@@ -44,6 +48,12 @@ func zzStubAsn1Unmarshal09e(b []byte, v interface{}) ([]byte, error) {
 		}
 		*p = zz09e.bc[b[1]]
 		return nil, nil
+	case *nameConstraints:
+		if len(b) != 2 || b[0] != 0x31 || int(b[1]) >= len(zz09e.nc) {
+			return nil, errors.New("zz: asn1: structure error")
+		}
+		*p = zz09e.nc[b[1]]
+		return nil, nil
 	case *pkix.RDNSequence:
 		*p = nil
 		return nil, nil
@@ -61,7 +71,7 @@ func zzStubParsePublicKey09e(algo PublicKeyAlgorithm, keyData *publicKeyInfo) (i
 //
 //verif:property C09
 //verif:expect-reach end
-//verif:bound KeyUsage any non-zero 9-bit value; BasicConstraints absent / present with IsCA symbolic and MaxPathLen in {absent, explicit zero, 1..3}; the extension code of buildExtensions and parseCertificate with encoding/asn1 a value store under the engine; natively a real SM2 certificate is created and parsed
+//verif:bound KeyUsage any non-zero 9-bit value; 0..2 permitted DNS domains, the extension critical or not; BasicConstraints absent / present with IsCA symbolic and MaxPathLen in {absent, explicit zero, 1..3}; the extension code of buildExtensions and parseCertificate with encoding/asn1 a value store under the engine; natively a real SM2 certificate is created and parsed
 //verif:outside DER itself (encoding/asn1); the other extensions; the public key and names (stubbed away under the engine)
 //verif:stub-symbolic encoding/asn1.Marshal zzStubAsn1Marshal09e
 //verif:stub-symbolic encoding/asn1.Unmarshal zzStubAsn1Unmarshal09e
@@ -74,6 +84,9 @@ func zzH_c09_extensions_roundtrip() {
 	pl := vInt("maxPathLen", 0, 3)
 	plZero := vBool("maxPathLenZero")
 	tmpl := &Certificate{KeyUsage: ku}
+	ncDomains := [][]string{nil, {"a.example"}, {"a.example", "b.example"}}[vChoice("permittedDomains", 3)]
+	ncCritical := vBool("nameConstraintsCritical")
+	tmpl.PermittedDNSDomains, tmpl.PermittedDNSDomainsCritical = ncDomains, ncCritical && len(ncDomains) > 0
 	if bcValid {
 		tmpl.BasicConstraintsValid, tmpl.IsCA, tmpl.MaxPathLen, tmpl.MaxPathLenZero = true, isCA, pl, plZero && pl == 0
 	}
@@ -88,7 +101,7 @@ func zzH_c09_extensions_roundtrip() {
 		got, err = ParseCertificate(der)
 		vAssert("parse-ok", err == nil && got != nil)
 	} else {
-		zz09e.bits, zz09e.bc = nil, nil
+		zz09e.bits, zz09e.bc, zz09e.nc = nil, nil, nil
 		exts, err := buildExtensions(tmpl)
 		vAssert("create-ok", err == nil)
 		in := &certificate{}
@@ -101,6 +114,9 @@ func zzH_c09_extensions_roundtrip() {
 	}
 	vAssert("key-usage-parses-back", got.KeyUsage == ku)
 	vAssert("basic-constraints-presence-parses-back", got.BasicConstraintsValid == bcValid)
+	vAssert("permitted-dns-domains-parse-back", len(got.PermittedDNSDomains) == len(ncDomains) &&
+		(len(ncDomains) == 0 || got.PermittedDNSDomains[0] == ncDomains[0]) && (len(ncDomains) < 2 || got.PermittedDNSDomains[1] == ncDomains[1]))
+	vAssert("name-constraints-critical-flag-parses-back", got.PermittedDNSDomainsCritical == tmpl.PermittedDNSDomainsCritical)
 	if bcValid {
 		vAssert("ca-flag-parses-back", got.IsCA == isCA)
 		switch {
